@@ -329,12 +329,11 @@ class _SerializableContainer(_Container, _Serializable):
                 for member in self.members:
                     member.calc_wire_stiffness()
 
+                self.kind = max(x.kind for x in self.members)
                 if self.members[-1].greedy:
                     self.kind = Kind.UNLIMITED
                 elif any(x.is_dynamic for x in self.members):
-                    self.kind = Kind.DYNAMIC
-                else:
-                    self.kind = max(x.kind for x in self.members)
+                    self.kind = max(self.kind, Kind.DYNAMIC)
 
 
 class Struct(_SerializableContainer):
